@@ -5,8 +5,9 @@
         the stubs package's submodules are then loaded INTO the stubs module;
      return merge_stubs(top_module, stubs)                  -> second merge, unguarded.
    Objects, not values, matter here: the first merge MOVED every stub-only member into the runtime tree, so in the
-   second merge such a member is at the same time the stub member and the runtime member (_merge_class_stubs(c, c)),
-   and the first merge emptied the pending-overloads dict of every stubs scope it went through.
+   second merge such a member is at the same time the stub member and the runtime member; since /repo 79c2f6a
+   _merge_stubs_members skips it (`if obj_member is stub_member: continue`; before, it was merged into itself, finding
+   C19-F5).  The first merge also emptied the pending-overloads dict of every stubs scope it went through.
    Executable definitions only; proofs are in Proofs/C19_reload.v. *)
 From Coq Require Import List ZArith String Bool Arith.
 From Verif Require Import Lib.Sexp Model.C19_merge Model.C19_seq.
@@ -23,23 +24,6 @@ Fixpoint has_dicts (t : tree) : bool :=
   | Obj d ms =>
       (if is_container (nkind d) then match nov d with OvDict _ => true | _ => false end else true)
       && forallb (fun p => has_dicts (snd p)) ms
-  end.
-
-(* _merge_module_stubs(c, c) / _merge_class_stubs(c, c): an object merged into ITSELF.
-   docstring: nothing.  overloads: the pending groups are given to the own function members they name, the dict is emptied.
-   members: imports.update(own imports) nothing; aliases skipped; function/attribute members merged with themselves:
-   nothing (parameter names are unique); class/module members: recursively.
-   (The members are settled before the buffer is applied so that the definition is structural; the two commute: the
-   buffer pass only touches functions, settling only classes and modules.) *)
-Fixpoint settle (t : tree) : tree :=
-  match t with
-  | Obj d ms =>
-      if is_container (nkind d) then
-        let ms' := (fix go (l : list (string * tree)) : list (string * tree) :=
-                      match l with [] => [] | (n, m) :: r => (n, settle m) :: go r end) ms in
-        Obj (with_ov d (OvDict [])) (apply_buffer (buf_of d) ms')
-      else t
-  | _ => t
   end.
 
 Definition mem_name (n : string) (l : list string) : bool := existsb (String.eqb n) l.
@@ -69,9 +53,7 @@ Section Remerge.
             match sm with
             | Obj smd _ =>
                 match lookup n oms0 with
-                | None =>                                                   (* moved: obj_member is stub_member *)
-                    if has_dicts cm then remerge_members r oms0 (assign n (settle cm) acc)
-                    else (acc, Some EAttr)
+                | None => remerge_members r oms0 acc                        (* moved: if obj_member is stub_member: continue *)
                 | Some om0 =>
                     match final cm with
                     | Obj cmd cmms =>
@@ -140,17 +122,6 @@ Definition load_package2 (top stubs_init : tree) (subs : list (string * tree)) :
   | Raised e _ => Err e
   end.
 
-(* what the result keeps of bookkeeping: every pending-overloads dict erased (for comparisons "up to buffers") *)
-Fixpoint erase_buf (t : tree) : tree :=
-  match t with
-  | Obj d ms =>
-      Obj (match nov d with OvDict _ => with_ov d (OvDict []) | _ => d end)
-          ((fix go (l : list (string * tree)) : list (string * tree) :=
-              match l with [] => [] | (n, m) :: r => (n, erase_buf m) :: go r end) ms)
-  | Al tg rt => Al tg rt
-  | AlTo tg rt x => AlTo tg rt (erase_buf x)
-  end.
-
 Definition run_C19 (s : sexp) : sexp :=
   match s with
   | SList [SStr "load_package"; top; st; subs] =>
@@ -163,8 +134,6 @@ Definition run_C19 (s : sexp) : sexp :=
       | Some t', Some s', Some l' => enc_res enc_tree (load_package t' s' l')
       | _, _, _ => bad_input
       end
-  | SList [SStr "settle"; t] =>
-      match dec_tree t with Some t' => SList [SStr "ok"; enc_tree (settle t')] | None => bad_input end
   | SList (SStr "load_seq" :: _) => run_seq s
   | _ => C19_merge.run_C19 s
   end.
